@@ -34,6 +34,19 @@ def cases(draw, procs=False):
             t = tests[draw(st.integers(0, len(tests) - 1))]
             t.setdefault('acts', {}).setdefault(draw(st.sampled_from(['setUp', 'body', 'tearDown'])), []).append(
                 ['flaky', draw(st.integers(1, opts['repeat'])), draw(st.sampled_from(['AssertionError', 'ValueError']))])
+    if opts['buffer'] and not procs:
+        # tests with the usual "capture my own output" fixture: save the stream in setUp, put it back in tearDown or in a
+        # clean-up - also when the test raised in between
+        for _, t in gen.iter_tests(spec):
+            if draw(st.integers(0, 7)) == 0:
+                acts = t.setdefault('acts', {})
+                # (what the test writes while its private text streams are installed is its own business; they have no
+                # .buffer, so the byte-writing actions would just raise)
+                for ph in list(acts):
+                    acts[ph] = [a for a in acts[ph] if a[0] != 'out']
+                acts.setdefault('setUp', []).append(['swap', 'save'])
+                acts.setdefault('tearDown', []).insert(0, ['swap', 'restore'])
+                t['fixture'] = 'save-restore'
     if procs:
         opts['j'] = draw(st.sampled_from([None, 2]))
     return {'spec': spec, 'opts': opts}
